@@ -30,6 +30,22 @@ CLAIMS = {
   text="Pinned-never-evicted, readable-until-evicted (refinement to a reference map with eviction events), residency bound max_capacity + |Pinned region| + 32, region accounting and totality proved in Coq for all operation sequences, every capacity/strategy, any pin predicate and any frequency sketch. Totality is refuted for the original Policy::unpin (F4, witness replayed on the code on every run) and proved for the repair now committed. Lock-table corollary for pin = 'refcount > 1'. The model is tied to the code on every run by an exact differential (per-op result + evicted set, final resident map; exact sketch with FxHash) over ~10^5 (quick) / ~2*10^6 (thorough) ops. Multi-threaded use and the lock-table pattern are judged by the property oracle only.",
   note="Trusted: Coq kernel; hand-written Lfu/Model.v (single-threaded Piggyback semantics); scc entry_sync exclusivity. The bound uses the Pinned region length (entries wait there until notified or trimmed). The +32 slack is single-threaded only. QueryLockManager is private, so its exact pattern is exercised on TinyLFU directly.",
   tech="machine-checked proof in Coq (invariant by induction over operation sequences, oracle-parametric) + exact differential check of model vs code + property oracle + multi-threaded stress"),
+ "C01": dict(
+  text="Soundness proved in Coq for the core fragment of the engine model (inputs + Normal queries with data-dependent and conditional dependencies, unchanged writes, reverts, early cut-off, pedantic repair of new dependencies): for every well-formed program, every history and every fuel, every answer equals the from-scratch value under the inputs committed so far; no panic once inputs are set (3200 lines, invariant over the persisted columns). PARTIAL for firewalls, projections, external inputs and unordered groups: the full model Engine/Model.v is tied to the code exactly (answers, SetInputResults, multiset of executions, statistic) and judged by the from-scratch oracle on every run (in-memory and db-backed with cache capacities 1 and 64, restarts, 8-thread runs), but its soundness is not proved.",
+  note="Trusted: Coq kernel; hand-written engine models (tie = correspondence on this run's random histories); H-hash (fingerprints = values); parallel tasks inside a request sequentialised in the model; the fuel hypothesis of C01_core_sound (no earlier session ran out of fuel) is a model artefact, shown necessary and dischargeable (session_fuel_enough).",
+  tech="machine-checked proof in Coq (state invariant over the persisted columns, induction on fuel over the mutual repair/execute functions) + exact differential correspondence + from-scratch oracle"),
+ "C03": dict(
+  text="For the core fragment of the engine model: an executor runs at most once per request and per epoch (C03_core_once, for every program) and a re-execution is justified by a dependency of the previous run whose from-scratch value changed (C03_core_justified), proved in Coq for all programs/histories/fuel. PARTIAL for firewalls/projections/external inputs: every executor invocation of the real engine is judged by the harness from its own record of previous reads and compared (multiset per operation) with the full model. One recorded finding (backward projection re-runs a projection after its dependency changed and changed back).",
+  note="Trusted: as C01. The judge's notion of 'previous run' is the last completed executor invocation observed by the harness.",
+  tech="machine-checked proof in Coq (monotonicity of verification stamps, justification record per execution) + differential correspondence + per-invocation oracle"),
+ "C06": dict(
+  text="Proved in Coq: the cycle search over the computing graph terminates on every graph for the shape the source has now (read from computing.rs on every run), the previous shape is refuted (and its witness is replayed on the real code: two concurrent roots), and in the engine model a request for a computing query is answered with the cyclic error at once, marking exactly the computing queries in between. That cyclic programs terminate with defaults and follow input edits is validated, not proved: the model with cycles equals the real engine exactly on random cyclic programs without unordered groups; with groups the oracle (progress, no panic, acyclic sub-queries equal from-scratch) judges. Two recorded hangs for cycles through firewalls/projections.",
+  note="Trusted: Coq kernel; scanner tools/gen_sources.py (fixed code shape); hand-written engine model; termination of whole programs is by fuel in the model (not a theorem).",
+  tech="machine-checked proof in Coq (termination measure = queries not yet in the memo table; source-derived instance) + differential correspondence on cyclic programs + witness replay"),
+ "C14": dict(
+  text="Structural injectivity of the id expression for all well-formed type terms (C14_structural) with the necessity of its hypothesis refuted-and-replayed (C14_structural_unrestricted_refuted); pairwise distinctness of the model's ids on an explicit universe of 5010 terms of depth <= 3 by kernel computation (C14_universe_distinct); as_u128 faithful; QueryID injective up to the named key-hash hypothesis; model tied to the real constants of 5010 concrete Rust types + 320 run-time cases on every run.",
+  note="Uniqueness over all Rust types is not claimed (128-bit hash). Key-hash collision freeness is a Section hypothesis. Known finding block_scoped_twin_ids (derive names block-scoped types identically). Cross-process stability is tested (two processes), not proved; cross-version stability is excluded by design (version is in the name).",
+  tech="machine-checked proof in Coq (u64 mask/shift arithmetic proved = mod 2^64; induction over nested terms; vm_compute NoDup decision with soundness lemma) + differential check of real STABLE_TYPE_ID constants + real-id oracle"),
 }
 
 def entry(pid, c):
